@@ -405,6 +405,30 @@ def r4(ctx):
         yield VIOL("C01-R4", "canonical_request/separator-by-content:" + nm_.strip("'"), "whether %s is appended depends on %s, not on the position in the iteration: some header value / earlier output changes the structure of the canonical request" % (nm_, ", ".join(what_)), where=b.span_of_block(bi_))
     if not badsep and nsep:
         yield PASS("C01-R4", "canonical_request/separators-by-position", "%d separator pushes, each conditional on iteration structure only" % nsep, [])
+    # closed ingredient set: every append to the canonical request is one of the ingredients above, a signed header's name
+    # or looked-up value, or a separator byte - a line made up for a header that is absent (`expect:100-continue`), a
+    # constant, or any other value changes what a signature covers
+    extra = []
+    ncon = 0
+    for cb_, t_, ai_, sl_ in acc_contribs(b, acc):
+        if re.search(r"Vec::<T, A>::(with_capacity|reserve\w*|shrink_to\w*|capacity|len|is_empty|as_slice|as_mut_slice)$|Deref(Mut)?::deref(_mut)?$|Clone::clone$|fmt::|from_utf8_lossy$", t_["callee"]):
+            continue
+        ncon += 1
+        ks_ = [const_value(op_const(a_) or {}) for i_, a_ in enumerate(t_["args"]) if i_ != ai_]
+        if any(k_ in SEP for k_ in ks_):
+            continue
+        if any(pred(sl_, t_) for _, pred in must_ingredients) or is_name(sl_, t_) or is_value(sl_, t_):
+            continue
+        comp_ = [element_component(b, a_) for i_, a_ in enumerate(t_["args"]) if i_ != ai_]
+        if any(c_ is not None and (is_name(c_, t_) or is_value(c_, t_)) for c_ in comp_):
+            continue
+        extra.append((cb_, t_, ai_))
+    ctx.count(max(1, ncon))
+    if extra:
+        cv_ = [v for _, t_, ai_ in extra for i_, a_ in enumerate(t_["args"]) if i_ != ai_ for v in b.slice_op(a_).const_values()][:2]
+        yield VIOL("C01-R4", "canonical_request/extra-ingredient", "%d append(s) to the canonical request are neither a listed ingredient, a signed header's name / looked-up value, nor a separator (constants %s): text that is not in the request is signed, or a line exists for a header that is absent" % (len(extra), cv_), where=b.span_of_block(extra[0][0]))
+    else:
+        yield PASS("C01-R4", "canonical_request/closed-ingredient-set", "%d appends: ingredients, header names / values and separators only" % ncon, [])
     # canonical_query_string covers query_parameters
     q = ctx.fn("canonical::CanonicalRequest::canonical_query_string")
     qs = q.slice([0])
